@@ -248,6 +248,13 @@ unsafe extern "C" fn element_cb(el: *mut Element, ud: *mut c_void) -> RewriterDi
             probes.push((n, g, hh));
         }
     }
+    // user data round trip: what was set is what is read back (NULL before)
+    sh.probe_calls += 1;
+    let _ = lol_html_element_user_data_get(el); // another handler of the same element may have set it already
+    lol_html_element_user_data_set(el, ud);
+    if lol_html_element_user_data_get(el) != ud {
+        sh.probe_problems.push("lol_html_element_user_data_get does not return what was set".into());
+    }
     let ns = std::ffi::CStr::from_ptr(lol_html_element_namespace_uri_get(el)).to_string_lossy().into_owned();
     let mut rec = ElRec {
         hid: h.hid,
@@ -368,6 +375,7 @@ unsafe extern "C" fn element_cb(el: *mut Element, ud: *mut c_void) -> RewriterDi
                     op_errors.push("OnEndTag:no-content".into());
                 }
             }
+            Op::ClearEndTagHandlers => lol_html_element_clear_end_tag_handlers(el),
             // start_tag() is not exposed in the C API
             _ => {}
         }
@@ -406,6 +414,11 @@ unsafe extern "C" fn text_cb(t: *mut TextChunk, ud: *mut c_void) -> RewriterDire
     let (data, len): (*const c_char, size_t) = std::mem::transmute_copy(&content);
     let text = String::from_utf8_lossy(std::slice::from_raw_parts(data as *const u8, len)).into_owned();
     let last = lol_html_text_chunk_is_last_in_text_node(t);
+    lol_html_text_chunk_user_data_set(t, ud);
+    let _ = lol_html_text_chunk_is_removed(t);
+    if lol_html_text_chunk_user_data_get(t) != ud {
+        (*h.sh).probe_problems.push("text chunk user data / is_removed round trip failed".into());
+    }
     let first = h.node_start.is_none();
     let ns = *h.node_start.get_or_insert(loc.start);
     if last {
@@ -436,6 +449,11 @@ unsafe extern "C" fn comment_cb(c: *mut Comment, ud: *mut c_void) -> RewriterDir
     let sh = &mut *h.sh;
     let loc = lol_html_comment_source_location_bytes(c);
     let text = take_str(sh, lol_html_comment_text_get(c)).unwrap_or_default();
+    lol_html_comment_user_data_set(c, ud);
+    let _ = lol_html_comment_is_removed(c);
+    if lol_html_comment_user_data_get(c) != ud {
+        sh.probe_problems.push("comment user data / is_removed round trip failed".into());
+    }
     let fail = tick(sh);
     sh.log.push(Rec::Comment { hid: h.hid, start: loc.start, end: loc.end, text, failed: fail });
     if fail {
@@ -463,6 +481,11 @@ unsafe extern "C" fn doctype_cb(d: *mut Doctype, ud: *mut c_void) -> RewriterDir
     let name = take_str(sh, lol_html_doctype_name_get(d));
     let public = take_str(sh, lol_html_doctype_public_id_get(d));
     let system = take_str(sh, lol_html_doctype_system_id_get(d));
+    lol_html_doctype_user_data_set(d, ud);
+    let _ = lol_html_doctype_is_removed(d);
+    if lol_html_doctype_user_data_get(d) != ud {
+        sh.probe_problems.push("doctype user data / is_removed round trip failed".into());
+    }
     let fail = tick(sh);
     sh.log.push(Rec::Doctype { hid: h.hid, start: loc.start, end: loc.end, name, public, system, failed: fail });
     if fail {
